@@ -234,6 +234,8 @@ class Normalizer:
         self.loop_uid = 0
         self.pshape = dict(self.shapes.params.get(self.name, {}))
         self.loop_shapes = {}
+        self.local_fns = {}
+        self.local_depth = 0
         self.loop_inits = {}
         self.loop_headers = {}   # loop uid -> header term of a `for` (N18 needs to know that an index is the variable of range(n))
         self.lam_level = 0
@@ -350,7 +352,9 @@ class Normalizer:
                 self.loop(st, env)
                 continue
             if isinstance(st, ast.Try):
-                self.try_(st, env)
+                tr_ = self.try_(st, env)
+                if tr_ is not None:
+                    return tr_
                 continue
             self.simple(st, env)
         return ('env', env)
@@ -388,6 +392,11 @@ class Normalizer:
             return
         if isinstance(st, ast.Pass):
             return
+        if isinstance(st, ast.FunctionDef) and not st.decorator_list and not st.args.vararg and not st.args.kwarg and not st.args.kwonlyargs:
+            # a local helper function: calls to it are evaluated in place (free variables read the caller's current values)
+            self.local_fns[st.name] = st
+            env[st.name] = ('localfn', st.name)
+            return
         if isinstance(st, ast.Import):
             for a in st.names:
                 env[(a.asname or a.name).split('.')[0]] = ('mod', a.name if a.asname else a.name.split('.')[0])
@@ -422,19 +431,42 @@ class Normalizer:
             raise Unsupported('assignment target')
 
     def try_(self, st, env):
-        # body; handlers are alternative continuations: kept as an opaque effect carrying their terms
+        """body, then the handlers as alternative continuations from the state the body reached.  A name the handlers (re)bind
+        becomes  try(value after the body, (value after handler 1, ...))  and `return` in the body and in every handler makes the
+        whole statement return  try(body value, (handler values)) ; the handlers' effects are kept as an opaque effect term.
+        -> None, or ('ret', value, effect) when the statement returns on every way through it."""
         r = self.block(st.body, env)
-        if r[0] == 'ret':
-            raise Unsupported('return inside try')
-        henv = dict(env)
-        hterms = []
+        if r[0] == 'ret' and (st.orelse or st.finalbody):
+            raise Unsupported('return inside try with else / finally')
+        base = dict(r[1]) if r[0] == 'env' else dict(env)
+        hterms, hrets, henvs = [], [], []
         for h in st.handlers:
-            e2 = dict(henv)
+            e2 = dict(base)
+            if h.name:
+                e2[h.name] = ('exc', h.lineno)
             e2['$eff'] = ('eff0',)
             rr = self.block(h.body, e2)
             if rr[0] == 'ret':
-                raise Unsupported('return inside except')
-            hterms.append(rr[1]['$eff'])
+                hrets.append(rr[1])
+                hterms.append(rr[2])
+            else:
+                henvs.append(rr[1])
+                hterms.append(rr[1]['$eff'])
+        if r[0] == 'ret':
+            if henvs:
+                raise Unsupported('try body returns but a handler falls through')
+            eff = ('eff', r[2], ('handlers', tuple(hterms)))
+            return ('ret', ('try', r[1], tuple(hrets)) if hrets else r[1], eff)
+        if hrets and henvs:
+            raise Unsupported('some handlers return, others fall through')
+        if hrets:
+            raise Unsupported('return inside except while the body falls through')
+        if henvs:
+            names = set()
+            for he in henvs:
+                names |= {k_ for k_, v_ in he.items() if k_ != '$eff' and base.get(k_) is not v_ and base.get(k_) != v_}
+            for k_ in sorted(names):
+                env[k_] = ('try', base.get(k_, ('undef', '<local>')), tuple(he.get(k_, ('undef', '<local>')) for he in henvs))
         if st.orelse:
             rr = self.block(st.orelse, env)
             if rr[0] == 'ret':
@@ -444,6 +476,7 @@ class Normalizer:
             rr = self.block(st.finalbody, env)
             if rr[0] == 'ret':
                 raise Unsupported('return inside finally')
+        return None
 
     UNROLL_MAX = 8
 
@@ -738,6 +771,20 @@ class Normalizer:
             return ('lambda', ast.dump(e))
         if isinstance(e, ast.JoinedStr):
             return ('k', ast.dump(e))
+        if isinstance(e, (ast.ListComp, ast.GeneratorExp)) and len(e.generators) == 1 and not e.generators[0].is_async \
+                and isinstance(e.generators[0].target, ast.Name) and not e.generators[0].ifs:
+            # N17 for comprehensions: a constant, short iteration space is spelled out element by element
+            g = e.generators[0]
+            seq = self.expr(g.iter, env)
+            if seq[0] == 'call' and seq[1] == 'range' and not seq[3] and all(is_num(a_) and float(a_[1]).is_integer() for a_ in seq[2]) \
+                    and len(range(*[int(a_[1]) for a_ in seq[2]])) <= self.UNROLL_MAX:
+                items = []
+                for k_ in range(*[int(a_[1]) for a_ in seq[2]]):
+                    env2 = dict(env)
+                    env2[g.target.id] = num(k_)
+                    items.append(self.expr(e.elt, env2))
+                    env['$eff'] = env2['$eff']
+                return self.mk_list(tuple(items)) if isinstance(e, ast.ListComp) else ('tuple', tuple(items))
         if isinstance(e, ast.ListComp) and len(e.generators) == 1 and not e.generators[0].is_async \
                 and isinstance(e.generators[0].target, ast.Name):
             # N18: [f(j) for j in range(n)] is the array  j -> f(j)  of length n ; over any other sequence a map of it
@@ -1268,6 +1315,38 @@ class Normalizer:
                 return self.dot(recv, args[0])
             return ('call', ('meth', m), (recv,) + args, kwargs)
         fn = self.expr(f, env)
+        if fn[0] == 'localfn' and fn[1] in self.local_fns and not kwargs:
+            node = self.local_fns[fn[1]]
+            params = [a_.arg for a_ in node.args.posonlyargs + node.args.args]
+            if len(args) <= len(params) and self.local_depth < 4:
+                env2 = dict(env)
+                nd = len(node.args.defaults)
+                dflt = dict(zip(params[len(params) - nd:], node.args.defaults))
+                ok_ = True
+                for k_, p_ in enumerate(params):
+                    if k_ < len(args):
+                        env2[p_] = args[k_]
+                    elif p_ in dflt:
+                        env2[p_] = self.expr(dflt[p_], env)
+                    else:
+                        ok_ = False
+                if ok_:
+                    body = node.body
+                    if body and isinstance(body[0], ast.Expr) and isinstance(body[0].value, ast.Constant):
+                        body = body[1:]
+                    self.local_depth += 1
+                    try:
+                        r_ = self.block(body, env2)
+                    finally:
+                        self.local_depth -= 1
+                    # only the effect escapes the helper's frame (it does not declare nonlocal: assignments stay local)
+                    if any(isinstance(n_, (ast.Nonlocal, ast.Global)) for n_ in ast.walk(node)):
+                        raise Unsupported('nonlocal in a local helper')
+                    if r_[0] == 'ret':
+                        env['$eff'] = r_[2]
+                        return r_[1]
+                    env['$eff'] = r_[1]['$eff']
+                    return ('k', None)
         if fn[0] == 'g':
             return self.fn_call(fn[1], args, kwargs)
         if fn[0] == 'mod':
